@@ -14,7 +14,7 @@ import gen
 from gen import F, enc_label, dec_label, LabelTable, coq_obs
 import w_c17_py as PYK
 
-KIND_WEIGHTS = [('gate', 30), ('comb', 14), ('mwis', 14), ('mult', 2), ('multwire', 2),
+KIND_WEIGHTS = [('gate', 30), ('comb', 14), ('mwis', 14), ('mult', 2), ('multwire', 2), ('qap', 6), ('magic', 4),
                 ('knapsack', 10), ('binpacking', 8), ('multiknapsack', 8), ('random', 14)]
 STRENGTHS = ['1/2', '1', '2', '3']
 GATES = {'and': ('and_gate', 3, 'GAnd'), 'or': ('or_gate', 3, 'GOr'), 'xor': ('xor_gate', 4, 'GXor'),
@@ -46,6 +46,23 @@ def gen_case(rng, tier):
         sizes = MULT_QUICK * (1 if tier == 'thorough' else 2) + [(3, 3)]     # 3x3 costs ~20 s
         na, nb = rng.choice(sizes)
         return {"kind": kind, "na": na, "nb": nb, "nb_form": rng.choice(['pos', 'kw', 'omit'] if na == nb else ['pos', 'kw'])}
+    if kind == 'qap':
+        n = rng.randint(1, 3)
+        # distances are symmetric with a zero diagonal; asymmetric distance matrices are an open question
+        # (corpus/C17/qap_asymmetric.json): QAP_ASYMMETRIC switches them on in the random stream
+        D = [[0] * n for _ in range(n)]
+        for i in range(n):
+            for j in range(i):
+                D[i][j] = D[j][i] = rng.randint(0, 9)
+                if QAP_ASYMMETRIC and rng.random() < 0.5:
+                    D[i][j] = rng.randint(0, 9)
+        F = [[rng.randint(0, 9) if i != j or rng.random() < 0.3 else 0 for j in range(n)] for i in range(n)]
+        if rng.random() < 0.3:
+            D = [[str(Fraction(v, 2)) for v in r] for r in D]
+        return {"kind": kind, "n": n, "D": D, "F": F, "form": rng.choice(['list', 'array'])}
+    if kind == 'magic':
+        return {"kind": kind, "n": rng.choice([1, 2, 3, 3, 3, 4]), "power": rng.choice([1, 1, 2, None]),
+                "rseed": rng.randrange(1 << 30)}
     if kind == 'multwire':
         na, nb = rng.randint(1, 6), rng.randint(1, 6)
         return {"kind": kind, "na": na, "nb": nb, "nb_form": rng.choice(['pos', 'kw', 'omit'] if na == nb else ['pos', 'kw'])}
@@ -371,8 +388,103 @@ def cqm_term(c, last):
     return f"({head} {cobj} {clist(ccons)} {clist(crow)})"
 
 
+QAP_ASYMMETRIC = False
+
+LO_SHU = [[2, 7, 6], [9, 5, 1], [4, 3, 8]]
+DUERER = [[16, 3, 2, 13], [5, 10, 11, 8], [9, 6, 7, 12], [4, 15, 14, 1]]
+
+
+def run_magic(c):
+    n, power = c["n"], c["power"]
+    pw = 1 if power is None else power
+    feats = {"kind": "magic", "n": n, "power": pw}
+    cqm = DG.magic_square(n) if power is None else DG.magic_square(n, power)
+    order = [f"var_{i}_{j}" for i in range(n) for j in range(n)] + ["sum"]
+    if set(cqm.variables) != set(order):
+        return {"coq": None, "features": feats, "py_fail": f"variables {list(cqm.variables)!r}"}
+    for v in order:
+        if cqm.vartype(v) is not dimod.INTEGER or cqm.lower_bound(v) != 1:
+            return {"coq": None, "features": feats, "py_fail": f"variable {v}: {cqm.vartype(v)}, lower bound {cqm.lower_bound(v)}"}
+    py_fail = None
+    if gen.observe(cqm.objective)["lin"] and any(F(b) != 0 for _, b in gen.observe(cqm.objective)["lin"]):
+        py_fail = "magic_square has a non-zero objective"
+    T = LabelTable(order)
+    ccons = [f"({coq_obs(gen.observe(con.lhs), T)}, {SENSE[con.sense.value]}, {cq(F(con.rhs))})"
+             for con in cqm.constraints.values()]
+    rs = wlib.Rng(c["rseed"])
+    squares = []
+    base = {3: LO_SHU, 4: DUERER}.get(n)
+    if base:
+        squares += [base, [list(r) for r in zip(*base)], [r[::-1] for r in base]]
+        if pw == 2:
+            squares += [[[v * v for v in r] for r in base]]
+    latin = [[(i + j) % n + 1 for j in range(n)] for i in range(n)]
+    squares += [latin, [[1] * n for _ in range(n)], [[(2 * i + j) % n + 1 for j in range(n)] for i in range(n)]]
+    for _k in range(10):
+        squares.append([[rs.randint(1, 4) for _j in range(n)] for _i in range(n)])
+    rows = []
+    for sq in squares:
+        line = sum(v ** pw for v in sq[0])
+        for sv in {line, line + 1, sum(v ** pw for v in [r[0] for r in sq])}:
+            vals = [v for r in sq for v in r] + [max(1, sv)]
+            rows.append((vals, bool(cqm.check_feasible(dict(zip(order, vals))))))
+    crow = clist([f"({clist([cz(v) for v in vals])}, {cbool(f)})" for vals, f in rows])
+    coq = f"(CMagic {cnat(n)} {cnat(pw)} {clist(ccons)} {crow})"
+    return {"coq": coq, "py_fail": py_fail, "features": feats, "nontrivial": n > 1,
+            "observed": {"feasible_rows": sum(1 for _, f in rows if f), "rows": len(rows)}}
+
+
+def run_qap(c):
+    n = c["n"]
+    D = [[F(v) for v in r] for r in c["D"]]
+    Fm = [[F(v) for v in r] for r in c["F"]]
+    feats = {"kind": "qap", "n": n}
+    asym = any(D[i][j] != D[j][i] for i in range(n) for j in range(n))
+    conv = (lambda M: np.array([[float(v) for v in r] for r in M])) if c["form"] == 'array' else \
+           (lambda M: [[float(v) for v in r] for r in M])
+    cqm = DG.quadratic_assignment(conv(D), conv(Fm))
+    order = [f"x_{i}_{j}" for i in range(n) for j in range(n)]
+    if set(cqm.variables) != set(order) or any(cqm.vartype(v) is not dimod.BINARY for v in cqm.variables):
+        return {"coq": None, "features": feats, "py_fail": f"variables {list(cqm.variables)!r}, expected binary {order!r}"}
+    if len(cqm.constraints) != 2 * n:
+        return {"coq": None, "features": feats, "py_fail": f"{len(cqm.constraints)} constraints, expected {2 * n}"}
+    py_fail = None
+    # documented cost on every placement: sum over facilities i, k of flow[i][k] * distance[pi(i)][pi(k)]
+    for perm in itertools.permutations(range(n)):
+        sample = {f"x_{i}_{j}": int(perm[i] == j) for i in range(n) for j in range(n)}
+        want = sum(Fm[i][k] * D[perm[i]][perm[k]] for i in range(n) for k in range(n))
+        got = F(cqm.objective.energy(sample))
+        if not cqm.check_feasible(sample) and py_fail is None:
+            py_fail = f"placement {perm} is reported infeasible"
+        if got != want and py_fail is None:
+            py_fail = (f"quadratic_assignment({c['D']}, {c['F']}): placement {perm} has objective {got}, "
+                       f"documented cost sum F[i][k]*D[pi(i)][pi(k)] = {want}")
+            if asym:
+                feats = {"qap_asymmetric": True}
+    T = LabelTable(order)
+    mat = lambda M: clist([clist([cq(v) for v in r]) for r in M])
+    ccons = [f"({coq_obs(gen.observe(con.lhs), T)}, {SENSE[con.sense.value]}, {cq(F(con.rhs))})"
+             for con in cqm.constraints.values()]
+    N = n * n
+    rows = all_rows(N) if N <= 4 else None
+    if rows is None:
+        rs = wlib.Rng(n * 7919 + sum(int(v * 2) for r in D for v in r) + 31 * sum(int(v) for r in Fm for v in r))
+        rows = [tuple(int(perm[i] == j) for i in range(n) for j in range(n)) for perm in itertools.permutations(range(n))]
+        rows += [tuple(1 if rs.random() < p else 0 for _ in range(N)) for p in (0.2, 0.35, 0.5) for _k in range(40)]
+    crow = []
+    for r in rows:
+        sample = dict(zip(order, r))
+        crow.append(f"({clist([cbool(b) for b in r])}, {cbool(bool(cqm.check_feasible(sample)))}, {cq(F(cqm.objective.energy(sample)))})")
+    coq = f"(CQap {cnat(n)} {mat(Fm)} {mat(D)} {coq_obs(gen.observe(cqm.objective), T)} {clist(ccons)} {clist(crow)})"
+    return {"coq": coq, "py_fail": py_fail, "features": feats, "nontrivial": n > 1}
+
+
 def run_case(c):
     kind = c["kind"]
+    if kind == 'qap':
+        return run_qap(c)
+    if kind == 'magic':
+        return run_magic(c)
     if kind in PYK.KINDS:
         PYK.LAST.clear()
         r = PYK.run_case(c)
